@@ -40,7 +40,7 @@ class C07(Engine):
     prop = "C07"
     name = "read-fault-sim+conservation-monitor"
     level = "fault_enumeration"
-    expected_kinds = {"fault_free", "garbage_nl_kept", "garbage_nl_lost", "lost_final_newline"}
+    expected_kinds = {"fault_free", "garbage_nl_kept", "garbage_nl_lost", "lost_final_newline", "multi_file_garbage"}
     rule_text = ("Fault-free: every workload file at API level with the conservation monitor (I1 for all, I2/I3 for files the tool "
                  "itself finds clean, statement count for generated files). Fault-injecting: for every workload program and EVERY "
                  "statement boundary, seeded fragments of the unrecognisable family, newline kept or lost, plus the lost final "
@@ -54,7 +54,7 @@ class C07(Engine):
 
     def setup(self):
         q = self.tier == "quick"
-        self.pools = Pools(self.seed, n_gen=40 if q else 400, n_viol=20 if q else 200, n_cut=0, corpus_limit=None, tag="c07")
+        self.pools = Pools(self.seed, n_gen=90 if q else 600, n_viol=20 if q else 200, n_cut=0, corpus_limit=None, tag="c07")
         self.pools.register()
 
     def scenarios(self):
@@ -63,7 +63,8 @@ class C07(Engine):
         idx = 0
         # A. fault-free
         for fid in sorted(P.files):
-            yield idx, {"kind": "free", "ops": [{"op": "api", "file": fid}]}
+            yield idx, {"kind": "free", "generated": P.meta[fid]["group"] == "gen", "nstmts": P.meta[fid].get("nstmts"),
+                        "ops": [{"op": "api", "file": fid}]}
             idx += 1
         # B. garbage at every statement boundary (CLI level, default options)
         groups = ("gen", "special_clean", "special_notice", "corpus_headed", "viol", "special_erroneous")
@@ -75,7 +76,7 @@ class C07(Engine):
             gens = [b for b in bases if P.meta[b]["group"] in ("gen", "special_clean", "special_notice")]
             rest = [b for b in bases if b not in gens]
             rng.shuffle(rest)
-            bases = gens[:34] + rest[:10]
+            bases = gens[:34] + rest[:10]   # every boundary of 44 base programs
         idx = 1_000_000
         for b in bases:
             f = P.files[b]
@@ -108,6 +109,78 @@ class C07(Engine):
                       "tree": {f["name"]: "@x"}, "ops": [{"op": "cli", "argv": ["--no-colors", f["name"]]}]}
                 yield idx, sc
                 idx += 1
+
+    def multi_scenarios(self):
+        """Several files in one run, some of them carrying an unrecognisable fragment: every file that gets a
+        verdict must have been examined completely, exactly once (I5)."""
+        P = self.pools
+        q = self.tier == "quick"
+        n = 500 if q else 10000
+        bases = [f for g in ("gen", "special_clean", "special_notice", "special_erroneous", "viol", "special_zoo") for f in P.groups.get(g, [])
+                 if len(P.files[f]["content"]) < 5000]
+        for i in range(n):
+            rng = core.derive_rng("c07.multi", self.seed, i)
+            k = rng.randrange(2, 5)
+            files = {}
+            tree = {}
+            argv = []
+            for j in range(k):
+                b = bases[rng.randrange(len(bases))]
+                f = P.files[b]
+                content = f["content"]
+                sp = []
+                desc = "none"
+                if rng.random() < 0.55:
+                    offs = faults.statement_boundaries(content)
+                    where = rng.random()
+                    off = offs[-1] if where < 0.4 else offs[rng.randrange(len(offs))]
+                    frag = FRAGMENTS[rng.randrange(len(FRAGMENTS))]
+                    nl = rng.random() < 0.5
+                    sp = [[off, off, frag + ("\n" if nl else "")]]
+                    desc = f"garbage({frag!r},nl={nl},eof={off == len(content)})"
+                files[f"x{j}"] = {"name": f["name"], "base": b, "splices": sp, "fault_desc": desc}
+                tree[f"d{j}"] = {f["name"]: f"@x{j}"}
+                argv.append(f"d{j}/{f['name']}")
+            mode = rng.random()
+            op = {"op": "cli", "argv": ["--no-colors"] + argv}
+            if mode < 0.25:
+                op = {"op": "cli", "argv": ["--no-colors", "."], "glob_perms": [rng.randrange(1 << 30)]}
+            elif mode < 0.35:
+                op["argv"].append(argv[rng.randrange(len(argv))])
+            yield 3_000_000 + i, {"kind": "multi", "fault": "multi_file_garbage", "files": files, "tree": tree, "ops": [op]}
+
+    def check_I5(self, sc, o):
+        vs = []
+        if o.get("end") not in ("exit", "returned"):
+            return vs
+        mon = o.get("files_mon") or []
+        bypath = {}
+        for m in mon:
+            bypath.setdefault(m["path"], []).append(m)
+        reported = [f for rep in o.get("reports") or [] for f in rep["files"]]
+        want_paths = {}
+        for f in reported:
+            want_paths[f["path"]] = want_paths.get(f["path"], 0) + 1
+        for path, cnt in sorted(want_paths.items()):
+            recs = bypath.get(path, [])
+            if len(recs) < cnt:
+                vs.append(Violation(self.prop, "C07.I5-every-reported-file-was-examined",
+                                    "a file got a verdict line without having been examined", {"path": path, "verdicts": cnt, "examined": len(recs)}))
+                continue
+            for m in recs:
+                if m["left"] != 0:
+                    vs.append(Violation(self.prop, "C07.I5-every-reported-file-was-examined",
+                                        "a file got a verdict although its tokens were not all consumed", {"path": path, "left": m["left"]}))
+                    break
+                if m["unmatched"]:
+                    vs.append(Violation(self.prop, "C07.I4-no-silent-drop",
+                                        "multi-file run: a file with unrecognised tokens got a verdict line", {"path": path, "unmatched": m["unmatched"]}))
+                    break
+        for m in mon:
+            if m["min_stop"] is not None and m["min_stop"] < 1:
+                vs.append(Violation(self.prop, "C07.I1-consumes-at-least-one", "an iteration consumed no token (multi-file run)", {"path": m["path"]}))
+                break
+        return vs
 
     # ---- invariants ---------------------------------------------------------------------------------
     def check_I1(self, o, where):
@@ -145,12 +218,14 @@ class C07(Engine):
         if kind == "free":
             fid = sc["ops"][0]["file"]
             vs += self.check_I1(o, "fault-free")
-            if classify(o) == "clean":
+            # I2/I3 hold for files the tool itself finds clean, and for generated programs whatever their verdict
+            # (they are balanced and one-statement-per-line by construction; validated on 3 000 generated files)
+            if classify(o) == "clean" or (sc.get("generated") and o.get("outcome") == "verdict"):
                 pops = o["pops"]
                 for k, p in enumerate(pops):
                     before, stop, after, rule, sname, lvl, first, lastt = p
                     if rule is None:
-                        vs.append(Violation(self.prop, "C07.I2-aligned", "clean file with an unmatched iteration", {"iteration": k}))
+                        vs.append(Violation(self.prop, "C07.I2-aligned", "conforming file with an unmatched iteration", {"iteration": k}))
                         break
                     if first is not None and first[2] != 1:
                         vs.append(Violation(self.prop, "C07.I2-aligned", f"{rule} statement starts at column {first[2]}",
@@ -166,12 +241,32 @@ class C07(Engine):
                         break
                 fs = o.get("final_scope")
                 if fs and fs[1] != 0:
-                    vs.append(Violation(self.prop, "C07.I3-depth", f"run of a clean file ends in scope {fs[0]} (level {fs[1]})", {}))
-                meta = self.pools.meta.get(fid, {}) if fid in self.pools.files else {}
-                if meta.get("group") == "gen":
-                    want = file_of(sc, fid)["content"].count("\n")
+                    vs.append(Violation(self.prop, "C07.I3-depth", f"run of a conforming file ends in scope {fs[0]} (level {fs[1]})", {}))
+                if sc.get("generated"):
+                    # generated programs: indentation == nesting depth by construction, so the scope level the engine is
+                    # in before each statement must equal the number of leading tabs of that statement's line
+                    lines = file_of(sc, fid)["content"].split("\n")
+                    for a, b in zip(pops, pops[1:]):
+                        if b[6] is None:
+                            continue
+                        ln = b[6][1]
+                        text = lines[ln - 1] if 0 < ln <= len(lines) else ""
+                        st = text.strip()
+                        if not st or st.startswith("#") or st.startswith("/*") or st.startswith("//"):
+                            continue
+                        tabs = len(text) - len(text.lstrip("\t"))
+                        want = a[5] - 1 if (st == "{" or st.startswith("}")) else a[5]
+                        if tabs != want:
+                            vs.append(Violation(self.prop, "C07.I3-depth", f"after {a[3]} the scope is {a[4]} (level {a[5]}) but the next statement is nested {tabs} deep by construction",
+                                                {"line": ln, "text": text[:60]}))
+                            break
+                if sc.get("generated") and sc.get("nstmts") is not None:
+                    want = sc["nstmts"]
                     if want != len(pops):
                         vs.append(Violation(self.prop, "C07.I2-statement-count", f"generated file: {want} statements emitted, {len(pops)} recognised", {}))
+        elif kind == "multi":
+            if o.get("end") != "invalid-scenario":
+                vs += self.check_I5(sc, o)
         elif kind == "garbage":
             vs += self.check_I1(o, "garbage")
             pops = o.get("pops") or []
@@ -201,6 +296,11 @@ class C07(Engine):
             for a, b in zip(pops, pops[1:]):
                 self.bigrams.add((a[3], b[3]))
             self.sim_ticks += (o.get("ticks") or 0) + (o.get("lex_ticks") or 0)
+        elif kind == "multi":
+            self.fire("multi_file_garbage")
+            mon = o.get("files_mon") or []
+            self.count("multi_runs", "some_file_unrecognised" if any(m["unmatched"] for m in mon) else "all_recognised")
+            self.distinct.add(("multi", len(mon), tuple(bool(m["unmatched"]) for m in mon)))
         else:
             self.fire(sc["fault"])
             pops = o.get("pops") or []
@@ -210,7 +310,7 @@ class C07(Engine):
             if un:
                 self.distinct.add((sc.get("prev"), sc.get("frag"), sc.get("nl")))
         if len(self.samples) < 5 and idx % 1499 == 11:
-            f = file_of(sc, sc["ops"][0].get("file", "x")) if kind == "free" else file_of(sc, "x")
+            f = file_of(sc, sc["ops"][0].get("file", "x")) if kind == "free" else file_of(sc, "x" if kind == "garbage" else "x0")
             self.samples.append({"run": idx, "kind": kind, "fault": sc.get("desc"), "file": f["name"], "origin": f.get("origin"),
                                  "iterations": len(o.get("pops") or []),
                                  "first_iterations": [(p[3], p[1]) for p in (o.get("pops") or [])[:6]]})
@@ -219,6 +319,7 @@ class C07(Engine):
         self.bigrams = set()
         self.sim_ticks = 0
         self.run_bulk(self.scenarios(), chunk=12)
+        self.run_bulk(self.multi_scenarios(), chunk=8)
         self.recheck_killed()
         for b in self.bigrams:
             self.distinct.add(("bigram",) + b)
